@@ -498,7 +498,7 @@ def run_inner(ctx):
 
     # ---- G3 ----
     jobs = []
-    nr = 400 if th else 60
+    nr = 400 if th else 30
     for pat in ("ps", "ev", "rr", "bb"):
         for dm in ("lib", "small1"):
             nsh = 4 if pat in ("ps", "rr") else 2
@@ -522,7 +522,6 @@ def run_inner(ctx):
             hist("local", pat, 3, 4 if pat in ("ps", "ev") else 3, 2)
     if not th:
         hist("ipc", "ps", 3, 4, 4)
-        hist("ipc", "ev", 2, 5, 4)
     r = vlib.run_pipelines(jobs, DRIVER, timeout=2400)
     cleanup()
     os.makedirs(BASE, exist_ok=True)
